@@ -69,6 +69,10 @@ def run(ctx) -> None:
 
     ctx.rule("C12.detach", "finite domain: add_metabolites copies a metabolite iff it belongs to a model that is not the reaction's (shared with C12)", floor=1)
     c12.check_foreign_copy_guard(ctx)
+    from . import stores
+
+    ctx.rule("C02.derived", "T1: a value derived from an object's own state and kept on the object is dropped by every method of the class that changes that state", floor=6, hard=1)
+    ctx.guard(stores.check_derived_stores, ctx, "C02.derived")
     ctx.rule("C02.readonly", "T8: an operand that is documented as a source (the right-hand model of merge) is only read: nothing reachable from it is written or adopted", floor=1)
     check_readonly(ctx)
 
